@@ -270,6 +270,50 @@ func realRoles(res *Result) {
 			res.Add(Finding{Kind: "property", Check: "real-role", Line: c.name, Impl: fmt.Sprintf("%d calls, role %q, err %v", nseen, got, rerr), Expect: fmt.Sprintf("1 call with role %q", c.want)})
 		}
 	}
+	// the role is the LEAF's: extra certificates sent along in the chain (here an unrelated
+	// self-signed one carrying a role) must not supply it
+	extra, eerr := mint(certSpec{cn: "bystander", extraExts: []pkix.Extension{{Id: roleOID, Value: derUTF8([]byte("admin"))}}})
+	for _, lc := range []struct {
+		name string
+		exts []pkix.Extension
+		want string
+	}{
+		{"chain/leaf-without-role+extra-with-role", nil, ""},
+		{"chain/leaf-printable-role+extra-with-role", []pkix.Extension{{Id: roleOID, Value: append([]byte{0x13, 2}, "ab"...)}}, ""},
+		{"chain/leaf-role+extra-with-role", []pkix.Extension{{Id: roleOID, Value: derUTF8([]byte("operator"))}}, "operator"},
+	} {
+		if eerr != nil {
+			break
+		}
+		cli, err := mint(certSpec{cn: "client", parent: ca, extKeyUse: []x509.ExtKeyUsage{x509.ExtKeyUsageClientAuth}, extraExts: lc.exts})
+		if err != nil {
+			continue
+		}
+		cert := cli.tlsCert()
+		cert.Certificate = append(cert.Certificate, extra.der)
+		mc, err := modbus.NewClient(&modbus.ClientConfiguration{URL: "tcp+tls://" + addr, Timeout: time.Second, TLSClientCert: cert, TLSRootCAs: poolOf(ca), Logger: quietLog})
+		if err != nil {
+			continue
+		}
+		h.mu.Lock()
+		h.roles = nil
+		h.mu.Unlock()
+		if err := mc.Open(); err != nil {
+			res.Note("tls open failed for case " + lc.name + ": " + err.Error())
+			continue
+		}
+		_, rerr := mc.ReadRegister(1, modbus.HOLDING_REGISTER)
+		mc.Close()
+		h.mu.Lock()
+		got := strings.Join(h.roles, "|")
+		nseen := len(h.roles)
+		h.mu.Unlock()
+		res.Eval("real/"+lc.name, true, fmt.Sprintf("tls client chain %s => handler saw role %q (err %v)", lc.name, got, rerr))
+		if nseen != 1 || got != lc.want {
+			res.Add(Finding{Kind: "property", Check: "real-role", Line: lc.name, Impl: fmt.Sprintf("%d calls, role %q, err %v", nseen, got, rerr), Expect: fmt.Sprintf("1 call with role %q (the leaf's)", lc.want),
+				Note: "the role seen by the handler did not come from the client's leaf certificate"})
+		}
+	}
 	// plain tcp: always the empty role
 	h2 := &roleLogHandler{}
 	srv2, err := modbus.NewServer(&modbus.ServerConfiguration{URL: "tcp://127.0.0.1:0", Timeout: 2 * time.Second, Logger: quietLog}, h2)
